@@ -482,7 +482,7 @@ fn locate(j: &Value, form: Form, f: &str) -> Option<Loc> {
                 return simple(p, ext0(), 0);
             }
             p.extend([k("merkle_proof"), k("siblings")]);
-            return simple(p, hash0(), 70);
+            return simple(p, hash0(), 31);
         }
         let m = at(j, &init)?.as_object()?;
         let ks = sorted_keys(m);
@@ -515,7 +515,7 @@ fn locate(j: &Value, form: Form, f: &str) -> Option<Loc> {
             return simple(base, ext0(), 0);
         }
         base.extend([k("merkle_proof"), k("siblings")]);
-        return simple(base, hash0(), 70);
+        return simple(base, hash0(), 31);
     }
     base.extend([k("initial_trees_proof"), k("evals_proofs")]);
     locate_initial(j, base, what)
@@ -535,7 +535,7 @@ fn locate_initial(j: &Value, mut p: Path, what: &str) -> Option<Loc> {
         Some(Loc { path: p, template: json!(0), huge: 0, is_map: false })
     } else {
         p.extend([Seg::I(1), k("siblings")]);
-        Some(Loc { path: p, template: hash0(), huge: 70, is_map: false })
+        Some(Loc { path: p, template: hash0(), huge: 31, is_map: false })
     }
 }
 
